@@ -215,6 +215,10 @@ func lagHistory(r *vk.Run, n int, withHist bool, pairs int) error {
 			r.Finding(fmt.Sprintf("completeness: store.VerifyDualProof rejected an honest proof %d->%d over a well-formed lagging history (BlTxID src=%d tgt=%d) seed=%d",
 				i, j, hs.BlTxID, ht.BlTxID, r.Seed))
 		}
+		if n <= 16 && q < 4 {
+			r.Case(fmt.Sprintf("CDualGen %s %d %d %s", hdrsTerm(g.hdrs), i, j, dualRecord(p)),
+				map[string]any{"kind": "dualgen", "i": i, "j": j, "lagging": true}, "gen/dual/lagging", true)
+		}
 		if p.LinearAdvanceProof != nil {
 			e := minU(i, ht.BlTxID)
 			ealh := g.alhs[e-1]
